@@ -97,6 +97,21 @@ def dump_tree(tree):
     return ["other", repr(tree)]
 
 
+def dump_tree_flat(tree):
+    """the same information as dump_tree as a flat pre-order list of (depth, ...) rows - no recursion (very deep trees)"""
+    rows, stack = [], [(tree, 0)]
+    while stack:
+        node, depth = stack.pop()
+        if isinstance(node, Tree):
+            rows.append([depth, "tree", str(node.data), len(node.children)])
+            stack.extend((child, depth + 1) for child in reversed(node.children))
+        elif isinstance(node, Token):
+            rows.append([depth, "token", node.type, str(node), node.value if isinstance(node.value, str) else repr(node.value)])
+        else:
+            rows.append([depth, "other", repr(node)])
+    return rows
+
+
 def _atom_matches(tree, node) -> bool:
     if not isinstance(tree, Tree):
         return False
